@@ -9,6 +9,8 @@
 //         spec = the two booleans and the points when true; tie = spec + the 2-argument wrapper's boolean)
 //   lines <pairs> <ox> <oy> <oz> <sh> <box> <d|f>     per-case text of one box
 //   case <d|f> <12 numbers: box min, box max, pos, dir>   numbers: strtod syntax or x<16 hex digits>
+//   nd <boxes> <R> <ox> <oy> <oz>                      non-dyadic direction lattice: <blk> <tieD> <tieF> <boolD> <boolF> <nFe> <nIs>
+//   ndlines <boxes> <R> <ox> <oy> <oz> <blk> <d|f>     per-case text of one block (points as double bit patterns)
 //   sweep <d|f> <seed> <quick|thorough>                float guard sweep blocks (input of `drv_raybox sweep`)
 //
 // On the lattice directions are integers in [-2,2] and box/origin coordinates are
@@ -347,6 +349,114 @@ template <class T> static void sweep (uint64_t seed, bool thorough)
     }
 }
 
+// ---------------------------------------------------------------------------
+// non-dyadic direction lattice: directions in {0,+-1,+-3,+-5,+-7}^3, integer boxes and origins.
+// tie = results always + BIT PATTERNS of the points when the result is true (compared with the
+// model executed at Float/Float32 in the Lean driver); bools = the two results (compared with the exact oracle).
+
+struct ND
+{
+    std::vector<std::vector<int>> boxes;
+    int R, ox, oy, oz;
+    int side () const { return 2 * R + 1; }
+    int nBlocks () const { return (int) boxes.size () * side (); }
+    int perBlock () const { return side () * side () * 729; }
+    bool get (int blk, int ci, int v[12]) const
+    {
+        static const int V[9] = {0, 1, -1, 3, -3, 5, -5, 7, -7};
+        int bi = blk / side (), ix = blk % side (), di = ci % 729;
+        if (di == 0) return false;
+        int pi = ci / 729, iy = pi / side (), iz = pi % side ();
+        const std::vector<int>& b = boxes[bi];
+        int o[3] = {ox, oy, oz};
+        for (int k = 0; k < 6; ++k) v[k] = b[k] + o[k % 3];
+        v[6] = ix - R + ox; v[7] = iy - R + oy; v[8] = iz - R + oz;
+        v[9] = V[di / 81]; v[10] = V[(di / 9) % 9]; v[11] = V[di % 9];
+        return true;
+    }
+};
+
+static ND parseND (char** a)
+{
+    ND n;
+    std::string s = a[0];
+    size_t p = 0;
+    while (p < s.size ())
+    {
+        size_t c = s.find (';', p);
+        if (c == std::string::npos) c = s.size ();
+        std::string t = s.substr (p, c - p);
+        std::vector<int> b;
+        size_t q = 0;
+        while (q < t.size ())
+        {
+            size_t d = t.find (',', q);
+            if (d == std::string::npos) d = t.size ();
+            b.push_back (atoi (t.substr (q, d - q).c_str ()));
+            q = d + 1;
+        }
+        n.boxes.push_back (b);
+        p = c + 1;
+    }
+    n.R = atoi (a[1]); n.ox = atoi (a[2]); n.oy = atoi (a[3]); n.oz = atoi (a[4]);
+    return n;
+}
+
+static inline uint64_t dbits (double d) { uint64_t u; memcpy (&u, &d, 8); return u; }
+template <class T> static inline uint64_t mixVb (uint64_t h, const Vec3<T>& v)
+{
+    return mix (mix (mix (h, dbits ((double) v.x)), dbits ((double) v.y)), dbits ((double) v.z));
+}
+template <class T> static uint64_t tieBits (uint64_t h, const Out<T>& o)
+{
+    h = mixB (h, o.fe);
+    if (o.fe) { h = mixVb (h, o.entry); h = mixVb (h, o.exit); }
+    h = mixB (h, o.is);
+    if (o.is) h = mixVb (h, o.ip);
+    return mixB (h, o.isb);
+}
+template <class T> static Out<T> runND (const int v[12])
+{
+    Box<Vec3<T>> b (Vec3<T> ((T) v[0], (T) v[1], (T) v[2]), Vec3<T> ((T) v[3], (T) v[4], (T) v[5]));
+    return run<T> (b, Vec3<T> ((T) v[6], (T) v[7], (T) v[8]), Vec3<T> ((T) v[9], (T) v[10], (T) v[11]));
+}
+struct NDSum { uint64_t tieD, tieF, boolD, boolF; long nFe, nIs; };
+static void ndBlock (const ND& n, int blk, NDSum& s)
+{
+    s.tieD = s.tieF = s.boolD = s.boolF = 1469598103934665603ull;
+    s.nFe = s.nIs = 0;
+    int v[12];
+    for (int ci = 0; ci < n.perBlock (); ++ci)
+    {
+        if (!n.get (blk, ci, v)) continue;
+        Out<double> d = runND<double> (v);
+        Out<float>  f = runND<float> (v);
+        s.tieD  = tieBits (s.tieD, d);
+        s.tieF  = tieBits (s.tieF, f);
+        s.boolD = mixB (mixB (s.boolD, d.fe), d.is);
+        s.boolF = mixB (mixB (s.boolF, f.fe), f.is);
+        s.nFe += d.fe; s.nIs += d.is;
+    }
+}
+static std::string hx (uint64_t u) { char b[32]; snprintf (b, sizeof b, "%llx", (unsigned long long) u); return b; }
+template <class T> static std::string pvb (const Vec3<T>& v)
+{
+    return hx (dbits ((double) v.x)) + "," + hx (dbits ((double) v.y)) + "," + hx (dbits ((double) v.z));
+}
+template <class T> static void ndLines (const ND& n, int blk)
+{
+    int v[12];
+    for (int ci = 0; ci < n.perBlock (); ++ci)
+    {
+        if (!n.get (blk, ci, v)) continue;
+        Out<T> o = runND<T> (v);
+        printf ("%d in=", ci);
+        for (int k = 0; k < 12; ++k) printf ("%s%d", k ? " " : "", v[k]);
+        printf (" | I fe=%d entry=%s exit=%s is=%d ip=%s isb=%d\n", (int) o.fe, o.fe ? pvb (o.entry).c_str () : "-",
+                o.fe ? pvb (o.exit).c_str () : "-", (int) o.is, o.is ? pvb (o.ip).c_str () : "-", (int) o.isb);
+    }
+}
+
 int main (int argc, char** argv)
 {
     if (argc < 2) return 2;
@@ -389,6 +499,27 @@ int main (int argc, char** argv)
     if (!strcmp (argv[1], "case") && argc >= 15)
     {
         if (argv[2][0] == 'f') oneCase<float> (argv + 3); else oneCase<double> (argv + 3);
+        return 0;
+    }
+    if (!strcmp (argv[1], "nd") && argc >= 7)
+    {
+        ND                       n = parseND (argv + 2);
+        std::vector<NDSum>       res (n.nBlocks ());
+        unsigned                 nt = std::thread::hardware_concurrency ();
+        if (nt == 0) nt = 4;
+        std::vector<std::thread> th;
+        for (unsigned t = 0; t < nt; ++t)
+            th.emplace_back ([&, t] { for (int b = (int) t; b < n.nBlocks (); b += (int) nt) ndBlock (n, b, res[b]); });
+        for (auto& t : th) t.join ();
+        for (int b = 0; b < n.nBlocks (); ++b)
+            printf ("%d %llu %llu %llu %llu %ld %ld\n", b, (unsigned long long) res[b].tieD, (unsigned long long) res[b].tieF,
+                    (unsigned long long) res[b].boolD, (unsigned long long) res[b].boolF, res[b].nFe, res[b].nIs);
+        return 0;
+    }
+    if (!strcmp (argv[1], "ndlines") && argc >= 9)
+    {
+        ND n = parseND (argv + 2);
+        if (argv[8][0] == 'f') ndLines<float> (n, atoi (argv[7])); else ndLines<double> (n, atoi (argv[7]));
         return 0;
     }
     if (!strcmp (argv[1], "sweep") && argc >= 5)
